@@ -780,6 +780,8 @@ def build_config(desc: dict, ctx: Ctx) -> TreeConfig:
             userdefs.TaggedEAConfig: userdefs.TaggedEADeme,
             userdefs.TaggedEAConfig2: userdefs.TaggedEADeme2,
         }
+    if not options and not desc.get("explicit_empty_options"):
+        return TreeConfig(levels, gsc, sprout, **kw)  # options left to the library's default
     return TreeConfig(levels, gsc, sprout, options=options, **kw)
 
 
